@@ -970,14 +970,25 @@ func runC20Ewma(c *c20Case, wc decor.WC, st decor.Statistics, call func(decor.De
 	}
 	if c.ViaBar {
 		r.Classes = append(r.Classes, "via-bar")
+		// a second and third estimator on the same bar: every one of them gets every sample
+		h1 := &c20Hybrid{WC: wc.Init()}
+		h2 := &c20Hybrid{WC: wc.Init()}
 		p := mpb.New(mpb.WithOutput(io.Discard))
-		b := p.AddBar(0, mpb.AppendDecorators(d))
+		b := p.AddBar(0, mpb.PrependDecorators(h1), mpb.AppendDecorators(d, decor.OnComplete(h2, "ok")))
 		for _, s := range c.Samples {
 			b.EwmaIncrInt64(s.N, time.Duration(s.Dur))
 		}
 		_ = b.Current() // all samples processed
 		b.Abort(true)
 		p.Wait()
+		for i, h := range []*c20Hybrid{h1, h2} {
+			h.mu.Lock()
+			got := fmt.Sprint(h.samples)
+			h.mu.Unlock()
+			if got != fmt.Sprint(c.Samples) {
+				return fail("fan-out", fmt.Errorf("estimator %d of 3 on the bar received samples %v, the calls made were %v", i+2, got, c.Samples))
+			}
+		}
 	} else {
 		ed, ok := unwrapAll(d).(decor.EwmaDecorator)
 		if !ok {
